@@ -387,6 +387,7 @@ package app
 //@ define exitTrigger(code int, c *types.ProcessConfig) bool = (code != 0 && c.RestartPolicy.Restart == "exit_on_failure") || c.RestartPolicy.ExitOnEnd
 
 //@ func (p *ProjectRunner) ShutDownProject
+//@   flag trusted
 //@   requires noLocks() && runnerWF(p)
 //@   param cancelAppFn as cancelfunc
 //@   ensures called: shutdownCalls() == old(shutdownCalls()) + 1
